@@ -5,8 +5,8 @@ package main
 import (
 	"fmt"
 	"os"
-	"regexp"
 	"path/filepath"
+	"regexp"
 	"sort"
 	"strconv"
 	"strings"
@@ -42,7 +42,7 @@ type (
 		Fun  string
 		Args []CExpr
 	}
-	COld   struct {
+	COld struct {
 		X     CExpr
 		Label string
 	}
@@ -461,41 +461,45 @@ type Clause struct {
 }
 
 type FuncContract struct {
-	Key       string // canonical function key
-	PkgPath   string // package in whose scope type names resolve
-	Requires  []*Clause
-	Ensures   []*Clause
-	AssumesAcq []*Clause // environment assumptions about the guarded state, assumed right after each lock acquisition
-	Assumes   []*Clause // assumed at entry without being checked at call sites (closures: facts on captured variables)
-	Modifies  []CExpr
-	ModAll    bool
-	Pure      bool
-	Inline    bool
-	MayPanic  bool
+	Key           string // canonical function key
+	PkgPath       string // package in whose scope type names resolve
+	Requires      []*Clause
+	Ensures       []*Clause
+	AssumesAcq    []*Clause // environment assumptions about the guarded state, assumed right after each lock acquisition
+	Assumes       []*Clause // assumed at entry without being checked at call sites (closures: facts on captured variables)
+	Modifies      []CExpr
+	ModAll        bool
+	Pure          bool
+	Inline        bool
+	MayPanic      bool
 	OpaqueStrides bool // index terms of multi-slot arrays through an uninterpreted stride function
-	NoBody    bool // extern/trusted: contract is assumed, body not verified
-	Fresh     bool // results are fresh allocations
-	Props     []string
-	Loops     map[int][]*Clause
-	File      string
-	Line      int
-	ParamsAs  []string // optional explicit parameter names (extern functions without names)
-	ResultsAs []string
-	IsIface   bool
-	FrameStrict bool
-	GhostAssigns []GhostAssign
-	Ats          []*AtBlock
-	StartLoop    int      // verify only from the head of this loop on (the prefix is skipped; the loop invariant is assumed there)
-	AutoUse      []string // quantified assumptions (by label) tried for obligations without a clause (no-panic checks)
+	NoBody        bool // extern/trusted: contract is assumed, body not verified
+	Fresh         bool // results are fresh allocations
+	Props         []string
+	Loops         map[int][]*Clause
+	File          string
+	Line          int
+	ParamsAs      []string // optional explicit parameter names (extern functions without names)
+	ResultsAs     []string
+	IsIface       bool
+	FrameStrict   bool
+	GhostAssigns  []GhostAssign
+	Ats           []*AtBlock
+	GhostLocals   map[string]string // ghostlocal name -> type: ghost variables of this one function (zero on entry; only its own at-blocks assign them, so no call changes them)
+	StartLoop     int               // verify only from the head of this loop on (the prefix is skipped; the loop invariant is assumed there)
+	AutoUse       []string          // quantified assumptions (by label) tried for obligations without a clause (no-panic checks)
 }
 
 // AtBlock holds assertions checked right before the n-th call (in source order) whose callee name contains Callee.
 type AtBlock struct {
-	Callee  string
-	Ordinal int
-	Asserts []*Clause
-	Assumes []*Clause
-	seen    bool
+	Callee      string
+	Ordinal     int
+	Asserts     []*Clause
+	Assumes     []*Clause
+	Ghosts      []GhostAssign // "ghost x = e" inside an at block: executed at that site, after the assertions
+	GhostsAfter []GhostAssign // "ghost_result x = e": executed after the call, with its results bound
+	AssumesHere []*Clause     // "assume_here e": assumed right before the call (listed as an assumption)
+	seen        bool
 }
 
 type GhostAssign struct {
@@ -516,6 +520,7 @@ type TypeContract struct {
 	Invariant []*Clause
 	Rely      []*Clause
 	Immutable []string
+	Received  []*Clause // assume_received: assumed of every value of this type received from a channel
 }
 
 type Pred struct {
@@ -572,7 +577,7 @@ var clauseKeywords = map[string]bool{
 	"func": true, "loop": true, "type": true, "pred": true, "fn": true, "axiom": true, "lemma": true, "iface": true,
 	"ghostvar": true, "requires": true, "ensures": true, "invariant": true, "modifies": true, "pure": true,
 	"may_panic": true, "props": true, "ghost": true, "guarded_by": true, "immutable": true, "assume": true,
-	"start_at_loop": true, "opaque_strides": true, "inline_matching": true, "assume_result": true, "at": true, "assert": true, "autouse": true, "assume_at_acquire": true, "fresh": true, "trusted": true, "inline": true, "rely": true, "params": true, "results": true, "package": true,
+	"start_at_loop": true, "opaque_strides": true, "inline_matching": true, "assume_result": true, "at": true, "assert": true, "autouse": true, "assume_at_acquire": true, "assume_received": true, "ghost_result": true, "ghost_here": true, "ghostlocal": true, "assume_here": true, "writes_nothing": true, "fresh": true, "trusted": true, "inline": true, "rely": true, "params": true, "results": true, "package": true,
 }
 
 type rawClause struct {
@@ -779,6 +784,25 @@ func (c *Contracts) LoadFile(path, defaultPkg string, extern bool) error {
 			}
 			curF.Ats = append(curF.Ats, &AtBlock{Callee: f[0], Ordinal: n})
 			curLoop = -1
+		case "ghostlocal":
+			f := strings.Fields(r.text)
+			if curF == nil || len(f) != 2 {
+				return fmt.Errorf("%s:%d: ghostlocal <name> <type> inside a func block", path, r.line)
+			}
+			if curF.GhostLocals == nil {
+				curF.GhostLocals = map[string]string{}
+			}
+			curF.GhostLocals[f[0]] = f[1]
+		case "assume_here":
+			if curF == nil || len(curF.Ats) == 0 || curLoop != -1 {
+				return fmt.Errorf("%s:%d: assume_here outside an at block", path, r.line)
+			}
+			cl, err := mkClause("assume", r)
+			if err != nil {
+				return err
+			}
+			ab := curF.Ats[len(curF.Ats)-1]
+			ab.AssumesHere = append(ab.AssumesHere, cl)
 		case "assume_result":
 			if curF == nil || len(curF.Ats) == 0 || curLoop != -1 {
 				return fmt.Errorf("%s:%d: assume_result outside an at block", path, r.line)
@@ -859,6 +883,21 @@ func (c *Contracts) LoadFile(path, defaultPkg string, extern bool) error {
 			default:
 				return fmt.Errorf("%s:%d: invariant outside loop/type", path, r.line)
 			}
+		case "writes_nothing":
+			// the function (typically a goroutine body) writes no memory and no map of its caller's world
+			if curF == nil {
+				return fmt.Errorf("%s:%d: writes_nothing outside func", path, r.line)
+			}
+			curF.FrameStrict = true
+		case "assume_received":
+			if curT == nil {
+				return fmt.Errorf("%s:%d: assume_received outside type", path, r.line)
+			}
+			cl, err := mkClause("assume", r)
+			if err != nil {
+				return err
+			}
+			curT.Received = append(curT.Received, cl)
 		case "rely":
 			if curT == nil {
 				return fmt.Errorf("%s:%d: rely outside type", path, r.line)
@@ -914,6 +953,46 @@ func (c *Contracts) LoadFile(path, defaultPkg string, extern bool) error {
 			ps := strings.Fields(strings.ReplaceAll(r.text, ",", " "))
 			if curF != nil {
 				curF.Props = append(curF.Props, ps...)
+			}
+		case "ghost_result":
+			if curF == nil || curLoop != -1 || len(curF.Ats) == 0 {
+				return fmt.Errorf("%s:%d: ghost_result outside an at block", path, r.line)
+			}
+			{
+				m := ghostAssignRe.FindStringIndex(r.text)
+				if m == nil {
+					return fmt.Errorf("%s:%d: ghost_result <lvalue> = <expr>", path, r.line)
+				}
+				lhs, err := ParseExpr(r.text[:m[0]+1])
+				if err != nil {
+					return fmt.Errorf("%s:%d: %v", path, r.line, err)
+				}
+				rhs, err := ParseExpr(r.text[m[1]-1:])
+				if err != nil {
+					return fmt.Errorf("%s:%d: %v", path, r.line, err)
+				}
+				ab := curF.Ats[len(curF.Ats)-1]
+				ab.GhostsAfter = append(ab.GhostsAfter, GhostAssign{lhs, rhs, r.text})
+			}
+		case "ghost_here":
+			if curF == nil || curLoop != -1 || len(curF.Ats) == 0 {
+				return fmt.Errorf("%s:%d: ghost_here outside an at block", path, r.line)
+			}
+			{
+				m := ghostAssignRe.FindStringIndex(r.text)
+				if m == nil {
+					return fmt.Errorf("%s:%d: ghost <lvalue> = <expr>", path, r.line)
+				}
+				lhs, err := ParseExpr(r.text[:m[0]+1])
+				if err != nil {
+					return fmt.Errorf("%s:%d: %v", path, r.line, err)
+				}
+				rhs, err := ParseExpr(r.text[m[1]-1:])
+				if err != nil {
+					return fmt.Errorf("%s:%d: %v", path, r.line, err)
+				}
+				ab := curF.Ats[len(curF.Ats)-1]
+				ab.Ghosts = append(ab.Ghosts, GhostAssign{lhs, rhs, r.text})
 			}
 		case "ghost":
 			if curF != nil {
